@@ -164,8 +164,57 @@ fn count_nonvalue_args(p: &cs::Prog) -> usize {
 }
 
 pub fn run_case(ctx: &Ctx, prog: &Program, tuples: &[Vec<i64>]) -> CaseResult {
+    run_text_case(ctx, &emit_program(prog), tuples, program_classes(prog))
+}
+
+/// two effects (A prints 1, B prints 2) at every ordered pair of integer leaf positions of small
+/// argument trees: call / constructor / operator arguments with constructors nested up to depth 3
+pub fn effect_matrix() -> Vec<String> {
+    // list shapes with integer holes `#`
+    let lists = ["C(#, N)", "C(#, C(#, N))", "C(#, C(#, C(#, N)))", "N"];
+    let mut templates: Vec<String> = vec![];
+    for a in lists {
+        templates.push(format!("f2({a}, #)"));
+        templates.push(format!("(sumL({a})) + #"));
+        templates.push(format!("# - (sumL({a}))"));
+        for b in ["C(#, N)", "C(#, C(#, N))"] {
+            templates.push(format!("f3({a}, {b}, #)"));
+            templates.push(format!("g(MkP({a}, {b}), #)"));
+            templates.push(format!("sumP(MkP({b}, {a})) * #"));
+        }
+    }
+    let prelude = "data L { N, C(x: i64, xs: L) }\ndata P { MkP(a: L, b: L) }\ndef ping(x: i64): i64 { print_i64(x); x }\ndef sumL(l: L): i64 { l.case { N => 0, C(x, xs) => x + sumL(xs) } }\ndef sumP(p: P): i64 { p.case { MkP(a, b) => sumL(a) - sumL(b) } }\ndef f2(a: L, b: i64): i64 { sumL(a) + b }\ndef f3(a: L, b: L, c: i64): i64 { (sumL(a) - sumL(b)) + c }\ndef g(p: P, c: i64): i64 { sumP(p) + c }\n";
+    let mut out = vec![];
+    for t in &templates {
+        let holes = t.matches('#').count();
+        for i in 0..holes {
+            for j in 0..holes {
+                if i == j {
+                    continue;
+                }
+                for kind in 0..2 {
+                    let (ea, eb) = if kind == 0 { ("(print_i64(1); 1)", "(println_i64(2); 2)") } else { ("ping(1)", "ping(2)") };
+                    let mut body = String::new();
+                    let mut k = 0;
+                    for ch in t.chars() {
+                        if ch == '#' {
+                            body.push_str(if k == i { ea } else if k == j { eb } else { "7" });
+                            k += 1;
+                        } else {
+                            body.push(ch);
+                        }
+                    }
+                    out.push(format!("{prelude}def main(): i64 {{ {body} }}\n"));
+                }
+            }
+        }
+    }
+    out
+}
+
+pub fn run_text_case(ctx: &Ctx, text: &str, tuples: &[Vec<i64>], mut classes: Vec<String>) -> CaseResult {
     let fuel = ctx.tier.pick(40_000, 120_000);
-    let text = emit_program(prog);
+    let text = text.to_string();
     let fail = |kind: &str, summary: String, details: serde_json::Value| {
         CaseResult::Fail(Failure { kind: kind.into(), summary, details })
     };
@@ -192,7 +241,6 @@ pub fn run_case(ctx: &Ctx, prog: &Program, tuples: &[Vec<i64>]) -> CaseResult {
     let nonvalue = count_nonvalue_args(&core);
     let mut any = false;
     let mut nontrivial = false;
-    let mut classes = program_classes(prog);
     for t in tuples {
         let (o, st) = mach_core::run(&src, t, fuel);
         match &o {
@@ -242,7 +290,7 @@ pub fn run_case(ctx: &Ctx, prog: &Program, tuples: &[Vec<i64>]) -> CaseResult {
 pub fn check(ctx: &Ctx) -> i32 {
     let start = Instant::now();
     let mut ev = Evidence::default();
-    ev.rule = "Core programs produced by fun2core from generated Fun programs with effects (print, exit, goto, nested calls) in any argument position; oracle: the Core abstract machine with dynamic focusing on the unfocused program vs the same machine on Prog::focus() (output, result, termination), plus the structural invariant that parameters, mu/mu-tilde and clause binders along every path have pairwise distinct non-zero ids <= max_id. Non-trivial: the unfocused run had to evaluate >= 2 non-value arguments through reified contexts and printed at least once; distinct by hash of (source, arguments). Second domain: well-typed unfocused Core programs generated directly as syntax trees (gen_core: every producer/consumer form in cuts at integer, data and codata types, abstractions/(co)matches/xtors nested in any argument position, constructors with consumer fields, destructors without continuation, xtor names shared between types, binders shadowing names of either chirality, recursion through a fuel parameter); same oracle; the histogram of cut shapes is reported as core-cut:* classes.".into();
+    ev.rule = "Core programs produced by fun2core from generated Fun programs with effects (print, exit, goto, nested calls) in any argument position; oracle: the Core abstract machine with dynamic focusing on the unfocused program vs the same machine on Prog::focus() (output, result, termination), plus the structural invariant that parameters, mu/mu-tilde and clause binders along every path have pairwise distinct non-zero ids <= max_id. Non-trivial: the unfocused run had to evaluate >= 2 non-value arguments through reified contexts and printed at least once; distinct by hash of (source, arguments). Effect-position matrix: two printing effects at every ordered pair of integer leaf positions of small argument trees (call, constructor and operator arguments with constructors nested up to depth 3; inline print blocks and calls of a printing definition). Second domain: well-typed unfocused Core programs generated directly as syntax trees (gen_core: every producer/consumer form in cuts at integer, data and codata types, abstractions/(co)matches/xtors nested in any argument position, constructors with consumer fields, destructors without continuation, xtor names shared between types, binders shadowing names of either chirality, recursion through a fuel parameter); same oracle; the histogram of cut shapes is reported as core-cut:* classes.".into();
     ev.assumptions = vec!["Core machine as in DESIGN.md 3.2".into()];
     let n = ctx.tier.pick(6000, 400000);
     // debugging aid: VERIF_ONLY=gencore skips the first domain
@@ -258,6 +306,21 @@ pub fn check(ctx: &Ctx) -> i32 {
         let (c2, f2) = shrink_fun_case(&c, &f, 3000, &|p, t| run_case(ctx, p, t));
         eprintln!("{}", f2.summary);
         report.violations.push(write_replay_with(ctx, "focus", &bytes, &f2, fun_case_json(&c2)));
+    }
+    // effect-position matrix (deterministic)
+    if report.violations.is_empty() {
+        use rayon::prelude::*;
+        let texts = effect_matrix();
+        let results: Vec<CaseResult> = texts.par_iter().map(|t| run_text_case(ctx, t, &[vec![]], vec!["effect-position matrix".into()])).collect();
+        for (t, r) in texts.iter().zip(results) {
+            if let CaseResult::Fail(f) = &r {
+                if report.violations.is_empty() {
+                    eprintln!("{}", f.summary);
+                    report.violations.push(write_replay_with(ctx, "matrix", &[], f, json!({"source": t})));
+                }
+            }
+            ev.absorb(&r);
+        }
     }
     // second domain: Core programs generated directly
     if report.violations.is_empty() {
@@ -276,6 +339,9 @@ pub fn check(ctx: &Ctx) -> i32 {
 }
 
 pub fn replay(ctx: &Ctx, sub: &str, bytes: &[u8], case: &serde_json::Value) -> CaseResult {
+    if sub.starts_with("matrix") {
+        return run_text_case(ctx, case["source"].as_str().unwrap_or(""), &[vec![]], vec!["effect-position matrix".into()]);
+    }
     if sub.starts_with("gencore") {
         return super::corecase::run(ctx, super::corecase::Mode::Focus, bytes);
     }
